@@ -1,6 +1,19 @@
-import CpModel.Finalize
+import CpProofs.C06Pipeline
 /-!
   C06 — response framing is self-consistent for every handler and tool mix.
+
+  Statement (properties.jsonl): every non-streamed response carries a Content-Length equal to the
+  bytes delivered, except 1xx/204/205/304 which carry neither; HEAD = the GET's status,
+  Content-Type and Content-Length with zero body bytes; a streamed response never carries a
+  Content-Length that disagrees with the bytes it produces.
+
+  The theorems are about `CpModel.Finalize` (the transcription of finalize, the built-in tools, the
+  error / redirect responses, `respond`, HEAD removal and the WSGI iteration).  They quantify over
+  every page text / gzip function (`Pages`), every request, every plan (handler shape, status
+  action, own headers, tool subset) and every cache content that earlier requests can have built.
+  The only hypothesis is `HandlerOk`: the *handler* does not set a Content-Length that is wrong for
+  its own value (the property is about the framework).  Without it the streamed part is false on
+  the unchanged code (`C06_stream_full_false`, finding C06-F1).
 -/
 namespace CpProofs.C06
 open CpModel CpModel.Finalize
@@ -21,6 +34,389 @@ theorem noBody_table_spec (c : Nat) :
     noBody c = true ↔ (100 ≤ c ∧ c < 200) ∨ c = 204 ∨ c = 205 ∨ c = 304 := by
   simp only [noBody, noBodyCodes_eq, List.contains_iff_mem, List.mem_append, List.mem_range'_1,
     List.mem_cons, List.not_mem_nil, or_false]
-  try omega
+  first | done | omega
+
+/-- every status for which set_response pads the page is an error status that keeps its body -/
+theorem ie_table_spec : ∀ kv ∈ Gen.C06.ieSizes, 400 ≤ kv.1 ∧ kv.1 ≤ 599 ∧ noBody kv.1 = false ∧ 0 < kv.2 := by
+  decide +kernel
+
+/-- every status HTTPRedirect knows is a 3xx; the only one without a body that `finalize` also
+    strips is 304 -/
+theorem redirect_table_spec : ∀ kv ∈ Gen.C06.redirKinds,
+    300 ≤ kv.1 ∧ kv.1 ≤ 399 ∧ kv.2 ≤ 2 ∧ (kv.2 = 1 ↔ noBody kv.1 = true) := by
+  decide +kernel
+
+/-! ### what is observed at the WSGI boundary -/
+
+/-- The statement, for one observed response to a request with method `m`. -/
+def ObsFramed (m : Method) (o : Obs) : Prop :=
+  (o.stream = false →
+    (noBody o.code = true → o.cl = none ∧ o.delivered = []) ∧
+    (noBody o.code = false → ∃ n, o.cl = some (.nat n) ∧ o.ending = .clean ∧
+      (m ≠ .head → o.delivered.length = n) ∧ (m = .head → o.delivered = []))) ∧
+  (o.stream = true →
+    (m = .head → o.delivered = []) ∧
+    (∀ n, o.cl = some (.nat n) → m ≠ .head → o.ending = .clean ∧ o.delivered.length = n))
+
+theorem deliver_nil : deliver [] = ([], End.clean) := rfl
+
+/-- Framing of whatever `serve` observes, from the framing of the finalized response. -/
+theorem serve_framed (pg : Pages) (rq : Req) (p : Plan) (cache : Option Cache)
+    (hok : HandlerOk p) (hc : CacheOk cache) :
+    ObsFramed rq.method (serve pg rq p cache).1 ∧ CacheOk (serve pg rq p cache).2 := by
+  have hr := respond_ok pg rq p cache hok hc
+  unfold serve
+  generalize respond pg rq p cache = rs at hr
+  obtain ⟨s, cached⟩ := rs
+  obtain ⟨⟨hcl, hfr⟩, hcache⟩ := hr
+  simp only at hcl hfr hcache ⊢
+  by_cases hm : rq.method = .head
+  · -- HEAD: nothing is iterated
+    simp only [hm, if_true, deliver_nil]
+    simp only [reduceCtorEq, false_and, if_false, ne_eq, not_true_eq_false]
+    refine ⟨⟨?_, ?_⟩, hcache⟩
+    · intro hs
+      have := hfr hs
+      refine ⟨fun hnb => ?_, fun hnb => ?_⟩
+      · have hnb' : noBody (codeOf s.r) = true := hnb
+        rw [if_pos hnb'] at this
+        exact ⟨this.1, rfl⟩
+      · have hnb' : ¬ noBody (codeOf s.r) = true := by rw [show noBody (codeOf s.r) = false from hnb]; simp
+        rw [if_neg hnb'] at this
+        obtain ⟨n, hn⟩ := this
+        exact ⟨n, hn, rfl, fun h => absurd rfl h, fun _ => rfl⟩
+    · intro _
+      exact ⟨fun _ => rfl, fun n _ h => absurd rfl h⟩
+  · simp only [hm, if_false]
+    rcases CLok_cases hcl with h0 | h0 | ⟨n, h0, hb, hl⟩
+    · -- no Content-Length
+      have hnostream : s.r.stream = false → noBody (codeOf s.r) = true ∧ s.r.body.chunks = [] := by
+        intro hs
+        have := hfr hs
+        by_cases hnb : noBody (codeOf s.r) = true
+        · rw [if_pos hnb] at this; exact ⟨hnb, this.2⟩
+        · rw [if_neg hnb] at this; obtain ⟨n, hn⟩ := this; rw [h0] at hn; cases hn
+      generalize hd : deliver s.r.body.chunks = de
+      obtain ⟨d, e⟩ := de
+      simp only
+      split
+      · -- replaced by the bare 500
+        rename_i hbare
+        refine ⟨⟨?_, ?_⟩, hcache⟩
+        · intro hs
+          have ⟨_, hch⟩ := hnostream hs
+          rw [hch, deliver_nil] at hd
+          cases hd
+          simp at hbare
+        · intro _
+          refine ⟨fun h => absurd h hm, fun n hn _ => ?_⟩
+          simp only at hn
+          cases hn
+          exact ⟨rfl, rfl⟩
+      · refine ⟨⟨?_, ?_⟩, ?_⟩
+        · intro hs
+          have ⟨hnb, hch⟩ := hnostream hs
+          rw [hch, deliver_nil] at hd
+          cases hd
+          refine ⟨fun _ => ⟨h0, rfl⟩, fun hnb' => ?_⟩
+          have : noBody (codeOf s.r) = false := hnb'
+          rw [hnb] at this; cases this
+        · intro _
+          refine ⟨fun h => absurd h hm, fun n hn _ => ?_⟩
+          simp only at hn
+          rw [h0] at hn; cases hn
+        · split
+          · split
+            · rename_i c' htee
+              exact teeDone_ok s.cache rq s.r _ c' hcache hcl htee
+            · exact hcache
+          · exact hcache
+    · -- Content-Length: None cannot survive finalize of a buffered response; harmless when streaming
+      have hnostream : s.r.stream = false → noBody (codeOf s.r) = true ∧ s.r.body.chunks = [] := by
+        intro hs
+        have := hfr hs
+        by_cases hnb : noBody (codeOf s.r) = true
+        · rw [if_pos hnb] at this; rw [h0] at this; cases this.1
+        · rw [if_neg hnb] at this; obtain ⟨n, hn⟩ := this; rw [h0] at hn; cases hn
+      generalize hd : deliver s.r.body.chunks = de
+      obtain ⟨d, e⟩ := de
+      simp only
+      have hcontra : s.r.stream = false → False := by
+        intro hs
+        have := hfr hs
+        by_cases hnb : noBody (codeOf s.r) = true
+        · rw [if_pos hnb] at this; rw [h0] at this; cases this.1
+        · rw [if_neg hnb] at this; obtain ⟨n, hn⟩ := this; rw [h0] at hn; cases hn
+      split
+      · refine ⟨⟨fun hs => (hcontra hs).elim, ?_⟩, hcache⟩
+        intro _
+        refine ⟨fun h => absurd h hm, fun n hn _ => ?_⟩
+        simp only at hn
+        cases hn
+        exact ⟨rfl, rfl⟩
+      · refine ⟨⟨fun hs => (hcontra hs).elim, ?_⟩, ?_⟩
+        · intro _
+          refine ⟨fun h => absurd h hm, fun n hn _ => ?_⟩
+          simp only at hn
+          rw [h0] at hn; cases hn
+        · split
+          · split
+            · rename_i c' htee
+              exact teeDone_ok s.cache rq s.r _ c' hcache hcl htee
+            · exact hcache
+          · exact hcache
+    · -- a numeric Content-Length: the body is clean bytes of exactly that length
+      rw [deliver_allBytes _ hb]
+      simp only [reduceCtorEq, false_and, if_false]
+      refine ⟨⟨?_, ?_⟩, ?_⟩
+      · intro hs
+        have := hfr hs
+        refine ⟨fun hnb => ?_, fun _ => ⟨n, h0, rfl, fun _ => hl, fun h => absurd h hm⟩⟩
+        have hnb' : noBody (codeOf s.r) = true := hnb
+        rw [if_pos hnb'] at this
+        rw [h0] at this; cases this.1
+      · intro _
+        refine ⟨fun h => absurd h hm, fun n' hn _ => ?_⟩
+        simp only at hn
+        rw [h0] at hn
+        cases hn
+        exact ⟨rfl, hl⟩
+      · split
+        · split
+          · rename_i c' htee
+            exact teeDone_ok s.cache rq s.r _ c' hcache hcl htee
+          · exact hcache
+        · exact hcache
+
+
+/-- **C06, non-streamed part**: Content-Length present and equal to the delivered bytes; 1xx / 204 /
+    205 / 304 carry neither; HEAD delivers nothing. -/
+theorem C06_nonstream (pg : Pages) (rq : Req) (p : Plan) (cache : Option Cache)
+    (hok : HandlerOk p) (hc : CacheOk cache) (hs : (serve pg rq p cache).1.stream = false) :
+    let o := (serve pg rq p cache).1
+    (noBody o.code = true → o.cl = none ∧ o.delivered = []) ∧
+    (noBody o.code = false → ∃ n, o.cl = some (.nat n) ∧ o.ending = .clean ∧
+      (rq.method ≠ .head → o.delivered.length = n) ∧ (rq.method = .head → o.delivered = [])) :=
+  (serve_framed pg rq p cache hok hc).1.1 hs
+
+/-- **C06, streamed part** (partial: needs `HandlerOk`, see `C06_stream_full_false`): a streamed
+    response's Content-Length, when there is one, is exactly what the body produces, and the
+    production ends cleanly. -/
+theorem C06_stream_partial (pg : Pages) (rq : Req) (p : Plan) (cache : Option Cache)
+    (hok : HandlerOk p) (hc : CacheOk cache) (hs : (serve pg rq p cache).1.stream = true) :
+    let o := (serve pg rq p cache).1
+    (rq.method = .head → o.delivered = []) ∧
+    (∀ n, o.cl = some (.nat n) → rq.method ≠ .head → o.ending = .clean ∧ o.delivered.length = n) :=
+  (serve_framed pg rq p cache hok hc).1.2 hs
+
+/-- The cache built by any request history only holds entries whose stored Content-Length equals the
+    stored body (this is what makes the theorems above hold for *later* requests too). -/
+theorem C06_cache_consistent (pg : Pages) (rq : Req) (p : Plan) (cache : Option Cache)
+    (hok : HandlerOk p) (hc : CacheOk cache) : CacheOk (serve pg rq p cache).2 :=
+  (serve_framed pg rq p cache hok hc).2
+
+/-- the statement for a whole request history against one application, starting from any
+    consistent cache (in particular the empty one) -/
+def AllFramed : List Req → List Obs → Prop
+  | [], [] => True
+  | rq :: rqs, o :: os => ObsFramed rq.method o ∧ AllFramed rqs os
+  | _, _ => False
+
+theorem C06_history (pg : Pages) (p : Plan) (hok : HandlerOk p) :
+    ∀ (rqs : List Req) (cache : Option Cache), CacheOk cache → AllFramed rqs (serveAll pg p rqs cache) := by
+  intro rqs
+  induction rqs with
+  | nil => intro _ _; trivial
+  | cons rq rest ih =>
+    intro cache hc
+    have h := serve_framed pg rq p cache hok hc
+    simp only [serveAll]
+    exact ⟨h.1, ih _ h.2⟩
+
+theorem C06_history_from_empty (pg : Pages) (p : Plan) (hok : HandlerOk p) (rqs : List Req) :
+    AllFramed rqs (serveAll pg p rqs none) :=
+  C06_history pg p hok rqs none CacheOk_none
+
+/-! ### HEAD -/
+
+/-- the same request as a GET -/
+def asGet (rq : Req) : Req := { rq with method := .get }
+
+/-- Nothing before the HEAD removal looks at the difference between GET and HEAD: the finalized
+    response, the cache state and the hit flag are *identical*. -/
+theorem etagsStep_head (rq : Req) (r : Resp) (hm : rq.method = .head) :
+    etagsStep rq r = etagsStep (asGet rq) r := by
+  have hs : rq.safe = (asGet rq).safe := by simp only [Req.safe, asGet, hm]; decide
+  simp only [etagsStep, etagsCond, hs]
+  rfl
+
+theorem runSteps_head (pg : Pages) (rq : Req) (cached : Bool) (hm : rq.method = .head) :
+    ∀ (steps : List Step) (r : Resp), runSteps pg rq cached steps r = runSteps pg (asGet rq) cached steps r := by
+  intro steps
+  induction steps with
+  | nil => intro r; rfl
+  | cons st rest ih =>
+    intro r
+    have h1 : applyStep pg rq cached st r = applyStep pg (asGet rq) cached st r := by
+      cases st with
+      | etags => exact etagsStep_head rq r hm
+      | expires => rfl
+      | flatten => rfl
+      | gzip => rfl
+      | tee => rfl
+    simp only [runSteps, h1, ih]
+
+theorem finalize_head (rq : Req) (s : St) : finalize rq s = finalize (asGet rq) s := rfl
+
+theorem hooksAndFinalize_head (pg : Pages) (rq : Req) (cached : Bool) (hooks : List Step) (s : St)
+    (hm : rq.method = .head) :
+    hooksAndFinalize pg rq cached hooks s = hooksAndFinalize pg (asGet rq) cached hooks s := by
+  simp only [hooksAndFinalize, runSteps_head pg rq cached hm, finalize_head rq]
+
+theorem handleError_head (pg : Pages) (rq : Req) (s : St) : handleError pg rq s = handleError pg (asGet rq) s := rfl
+
+theorem handlerStage_head (pg : Pages) (rq : Req) (p : Plan) (r : Resp) :
+    handlerStage pg rq p r = handlerStage pg (asGet rq) p r := rfl
+
+theorem beforeAndHandler_head (pg : Pages) (rq : Req) (p : Plan) (cache : Option Cache) (hm : rq.method = .head) :
+    beforeAndHandler pg rq p cache = beforeAndHandler pg (asGet rq) p cache := by
+  have h1 : ¬ rq.method = .post := by rw [hm]; decide
+  have h2 : ¬ (asGet rq).method = .post := by simp [asGet]
+  have h3 : ∀ c : Cache, c.find rq = c.find (asGet rq) := fun _ => rfl
+  simp only [beforeAndHandler, h1, h2, if_false, handlerStage_head pg rq p, h3]
+
+theorem recover_head (pg : Pages) (rq : Req) (cached : Bool) (hooks : List Step) (first : St × Option Exn)
+    (hm : rq.method = .head) :
+    recover pg rq cached hooks first = recover pg (asGet rq) cached hooks first := by
+  simp only [recover, handleError_head pg rq, hooksAndFinalize_head pg rq cached hooks _ hm]
+
+/-- Nothing before the HEAD removal looks at the difference between GET and HEAD: the finalized
+    response, the cache state and the hit flag are *identical*. -/
+theorem respond_head_eq_get (pg : Pages) (rq : Req) (p : Plan) (cache : Option Cache)
+    (hm : rq.method = .head) : respond pg rq p cache = respond pg (asGet rq) p cache := by
+  have hfp : firstPass pg rq p cache = firstPass pg (asGet rq) p cache := by
+    simp only [firstPass, beforeAndHandler_head pg rq p cache hm]
+    generalize beforeAndHandler pg (asGet rq) p cache = bh
+    obtain ⟨s, e, cached, teeOn⟩ := bh
+    cases e with
+    | some e => rfl
+    | none => simp only [hooksAndFinalize_head pg rq cached _ s hm]
+  simp only [respond, hfp]
+  generalize firstPass pg (asGet rq) p cache = fp
+  obtain ⟨first, cached, hooks⟩ := fp
+  simp only [recover_head pg rq cached hooks first hm]
+
+/-- **C06, HEAD part**: HEAD answers with the status, Content-Type and Content-Length the
+    corresponding GET commits to, and delivers zero bytes.  (`first` = what the GET's application
+    passes to its first `start_response`; for a non-streamed response that is also what the client
+    receives, see `C06_head_nonstream`.) -/
+theorem C06_head (pg : Pages) (rq : Req) (p : Plan) (cache : Option Cache) (hm : rq.method = .head) :
+    let o := (serve pg rq p cache).1
+    let g := (respond pg (asGet rq) p cache).1.r
+    o.delivered = [] ∧ o.code = codeOf g ∧ o.cl = g.hdrs .contentLength ∧ o.ctype = g.hdrs .contentType := by
+  have h := respond_head_eq_get pg rq p cache hm
+  simp only [serve, hm, if_true, deliver_nil]
+  rw [← h]
+  simp [codeOf]
+
+/-- for a non-streamed response the GET twin really delivers those headers (its body cannot fail
+    while being iterated) -/
+theorem C06_head_nonstream (pg : Pages) (rq : Req) (p : Plan) (cache : Option Cache)
+    (hm : rq.method = .head) (hok : HandlerOk p) (hc : CacheOk cache)
+    (hs : (serve pg (asGet rq) p cache).1.stream = false) :
+    let o := (serve pg rq p cache).1
+    let g := (serve pg (asGet rq) p cache).1
+    o.delivered = [] ∧ o.code = g.code ∧ o.cl = g.cl ∧ o.ctype = g.ctype := by
+  have hh := C06_head pg rq p cache hm
+  have hg := respond_ok pg (asGet rq) p cache hok hc
+  simp only at hh ⊢
+  refine ⟨hh.1, ?_⟩
+  rw [hh.2.1, hh.2.2.1, hh.2.2.2]
+  -- the GET side: not replaced by the bare 500, because a framed buffered body is clean bytes
+  have hstream : (respond pg (asGet rq) p cache).1.r.stream = false := by
+    have : (serve pg (asGet rq) p cache).1.stream = (respond pg (asGet rq) p cache).1.r.stream := by
+      simp only [serve]
+      generalize respond pg (asGet rq) p cache = rs
+      obtain ⟨s0, c0⟩ := rs
+      simp only
+      generalize deliver (if (asGet rq).method = Method.head then [] else s0.r.body.chunks) = de
+      obtain ⟨d0, e0⟩ := de
+      simp only
+      split <;> rfl
+    rw [← this]; exact hs
+  obtain ⟨hcl, hfr⟩ := hg.1
+  have hfr := hfr hstream
+  have hclean : ∃ d, deliver (respond pg (asGet rq) p cache).1.r.body.chunks = (d, .clean) := by
+    by_cases hnb : noBody (codeOf (respond pg (asGet rq) p cache).1.r) = true
+    · rw [if_pos hnb] at hfr; rw [hfr.2]; exact ⟨[], rfl⟩
+    · rw [if_neg hnb] at hfr
+      obtain ⟨n, hn⟩ := hfr
+      rcases CLok_cases hcl with h0 | h0 | ⟨n', h0, hb, _⟩
+      · rw [h0] at hn; cases hn
+      · rw [h0] at hn; cases hn
+      · exact ⟨_, deliver_allBytes _ hb⟩
+  obtain ⟨d, hd⟩ := hclean
+  have hget : (asGet rq).method ≠ .head := by simp [asGet]
+  simp only [serve, hget, if_false, hd]
+  simp [codeOf]
+
+/-! ### what is false on the unchanged code -/
+
+/-- stand-in page texts for the concrete witnesses -/
+def pg0 : Pages :=
+  { tmpl := fun _ => List.replicate 600 84, custom := none, redir := fun _ => [82], partHead := fun _ _ => [80],
+    partTail := [81], bare := [66], z := fun b => 90 :: b, zHead := [90] }
+
+/-- The streamed statement *without* the precondition on the handler. -/
+def C06_stream_full : Prop :=
+  ∀ (pg : Pages) (rq : Req) (p : Plan),
+    let o := (serve pg rq p none).1
+    o.stream = true → ∀ n, o.cl = some (.nat n) → rq.method ≠ .head → o.delivered.length = n
+
+/-- witness: the handler returns the text 'é', sets Content-Length: 2 (right for UTF-8) and streams;
+    tools.encode (streaming branch) keeps that header; the client asked for ISO-8859-1: one byte. -/
+def witnessPlan : Plan :=
+  { h := { shape := .strV ['é'], setCL := some 2 }, t := { encode := true, stream := true } }
+def witnessReq : Req := { charsets := [.latin1], dfltOnly := false }
+
+theorem C06_stream_full_false : ¬ C06_stream_full := by
+  intro h
+  have := h pg0 witnessReq witnessPlan (by decide) 2 (by decide) (by decide)
+  revert this
+  decide
+
+/-- ... and that witness is exactly what `HandlerOk` excludes -/
+example : ¬ HandlerOk witnessPlan := by
+  intro h
+  rcases h 2 rfl with ⟨h1, _⟩ | ⟨_, h2, _⟩
+  · revert h1; decide
+  · revert h2; decide
+
+/-- The no-body rule is claimed for non-streamed responses only (as in the statement): `finalize`
+    tests `stream` first, so a streamed 204 keeps the body its handler produced. -/
+theorem stream_204_keeps_body :
+    let o := (serve pg0 {} { h := { shape := .bytesV [1, 2, 3], st := .set 204 }, t := { stream := true } } none).1
+    o.code = 204 ∧ o.stream = true ∧ o.cl = none ∧ o.delivered.length = 3 := by
+  decide
+
+/-! ### non-vacuity -/
+
+/-- a handler that sets its own (right) Content-Length meets `HandlerOk` … -/
+example : HandlerOk { h := { shape := .genV [.bytes [1, 2], .bytes [3]], setCL := some 3 },
+                      t := { gzip := true, etags := true, caching := true } } := by
+  intro n hn
+  cases hn
+  left; decide
+
+/-- … so does a text handler with its own length under the non-streaming encode tool … -/
+example : HandlerOk { h := { shape := .strV ['é'], setCL := some 1 }, t := { encode := true } } := by
+  intro n hn
+  right; decide
+
+/-- … and the cache such a plan builds is non-empty and consistent (`CacheOk` is not vacuous) -/
+example : ∃ c, (serve pg0 {} { h := { shape := .bytesV [1, 2, 3] }, t := { caching := true } } none).2 = some c ∧
+    c.variants.length = 1 := by
+  refine ⟨_, rfl, ?_⟩
+  decide
 
 end CpProofs.C06
